@@ -26,11 +26,6 @@ def RoutesAs (p : Program) (sp : Spec) (sigs : Sigs) (kw : Kwargs) (keys : List 
   effectiveCalls sigs (run p sigs kw) = sp.effCalls sigs kw ∧
   producedKeys p sigs kw = keys
 
-/-- `EvalSpec.pattern` with the per-entry parameters removed: what `pattern.evaluate` really does (it assigns
-    `kwargs["thresh"]`, a name no callee has, so the two occurrence entries get the caller's / default `thres`) -/
-def patternAsCoded : Spec :=
-  { EvalSpec.pattern with calls := EvalSpec.pattern.calls.map fun c => { c with forced := [] } }
-
 set_option maxRecDepth 8000
 
 theorem beat_aux (sigs : Sigs) (h : Gen.SigsOk_beat sigs) (kw : Kwargs) :
@@ -129,11 +124,11 @@ theorem key_aux (sigs : Sigs) (h : Gen.SigsOk_key sigs) (kw : Kwargs) :
   unfold RoutesAs; routes_simp
 
 theorem pattern_aux (sigs : Sigs) (h : Gen.SigsOk_pattern sigs) (kw : Kwargs) :
-    RoutesAs Gen.prog_pattern patternAsCoded sigs kw
+    RoutesAs Gen.prog_pattern EvalSpec.pattern sigs kw
       ["F", "P", "R", "F_est", "P_est", "R_est", "F_occ.5", "P_occ.5", "R_occ.5", "F_occ.75", "P_occ.75",
         "R_occ.75", "F_3", "P_3", "R_3", "FFP", "FFTP_est"] := by
   simp only [Gen.SigsOk_pattern] at h
-  simp only [Gen.prog_pattern, patternAsCoded, EvalSpec.pattern]
+  simp only [Gen.prog_pattern, EvalSpec.pattern]
   rcases h0 : kw.get "n" with _ | v
   · unfold RoutesAs; routes_simp
   · unfold RoutesAs; routes_simp
@@ -152,16 +147,5 @@ theorem alignment_aux (sigs : Sigs) (h : Gen.SigsOk_alignment sigs) (kw : Kwargs
   simp only [Gen.SigsOk_alignment] at h
   simp only [Gen.prog_alignment, EvalSpec.alignment]
   unfold RoutesAs; routes_simp
-
-/-- a caller-supplied `thresh` (the misspelt name) has no effect on what the callees of `pattern.evaluate` receive -/
-theorem pattern_thresh_aux (sigs : Sigs) (h : Gen.SigsOk_pattern sigs) (kw : Kwargs) (v : KV) :
-    patternAsCoded.effCalls sigs (kw ++ [("thresh", v)]) = patternAsCoded.effCalls sigs kw := by
-  simp only [Gen.SigsOk_pattern] at h
-  simp only [patternAsCoded, EvalSpec.pattern]
-  rcases h0 : kw.get "n" with _ | w
-  · simp (disch := first | rfl | decide) [*, Kwargs.get_append_single_of_ne, effView, Spec.effCalls, specCallsAux,
-      condHolds, applyAll, applyDefaults, Sig.accepts, rejected_filterKwargs, EvalSpec.sc, scoreKeys]
-  · simp (disch := first | rfl | decide) [*, Kwargs.get_append_single_of_ne, effView, Spec.effCalls, specCallsAux,
-      condHolds, applyAll, applyDefaults, Sig.accepts, rejected_filterKwargs, EvalSpec.sc, scoreKeys]
 
 end Mir.EvalProg
